@@ -91,10 +91,17 @@ class Tree:
         viols, label = [], "root"
         st = ("ok", None)
         for i in hist:
+            if i == "fail":           # a rejected request (index 2^32) on the current node: must leave no trace
+                attempt(node.ckd, 2**32)
+                continue
             st = attempt(node.ckd, i)
             if st[0] != "ok":
                 break
             node = st[1]
+        fails = [i for i in hist if i == "fail"]
+        hist = [i for i in hist if i != "fail"]
+        if fails and not hist:
+            return {"canon": ["failed-calls-only", len(fails)], "viols": [], "label": "root"}
         refn = hd.derive(refn, hist)
         t = self.root.get("testnet", False)
         if hist:
@@ -112,12 +119,19 @@ class Tree:
                     viols.append(V("%s:tree:%s:wrong-strings" % (P, cls), "extended keys at %s" % hd.path_str(hist), strs, ref_strings(refn, t)))
                 # one-call derivation from a fresh root must land on the same state
                 dst, dn = attempt(lambda: hdscen.impl_root(self.root).derive_path(list(hist)))
+                if fails:
+                    viols_tag = "after-failed-call"
                 if dst != "ok" or hdscen.canon_impl_node(dn) != got:
                     viols.append(V(P + ":derive_path:vs-stepwise:differs", "derive_path(%r) != step-by-step ckd" % (hist,)))
                 if str(node) != hd.path_str(hist, "m") and self.root.get("depth", 0) == 0:
                     viols.append(V(P + ":str(node):tree:wrong-path", "str(node) at %r" % (hist,), str(node), hd.path_str(hist)))
             label = "violation" if viols else "state-equals-reference"
-        return {"canon": hdscen.canon_ref_node(refn) if not viols else ["bad", hist], "viols": viols, "label": label}
+        for v in viols:
+            if fails:
+                v["key"] += ":after-failed-call"
+                v["msg"] += " (history contains %d rejected ckd(2^32) calls)" % len(fails)
+        canon = hdscen.canon_ref_node(refn) + ([len(fails)] if fails else [])
+        return {"canon": canon if not viols else ["bad", hist, len(fails)], "viols": viols, "label": label}
 
 
 def execute(case):
@@ -164,7 +178,7 @@ def run(ctx):
               "chain": hd.master(bytes.fromhex("000102030405060708090a0b0c0d0e0f")).chain.hex()},
              {"k": lz(8), "chain": "%064x" % r.getrandbits(256), "depth": 3, "index": H + 1, "pfp": "01020304", "parsed": True, "testnet": True},
              {"k": N - 1, "chain": "ff" * 32}, {"k": 1, "chain": "00" * 32, "depth": 200, "index": 9, "pfp": "ffffffff", "parsed": True}]
-    alpha = [0, 1, H, H + 1, H - 1] + ([2**32 - 1] if ctx.thorough else [])
+    alpha = [0, 1, H, H + 1, H - 1, "fail"] + ([2**32 - 1] if ctx.thorough else [])
     depth = 4 if ctx.thorough else 3
     for n, root in enumerate(roots[:4 if ctx.thorough else 2]):
         model = Tree(root, alpha)
